@@ -7,7 +7,7 @@ import os
 HERE = os.path.dirname(os.path.dirname(os.path.abspath(__file__)))
 
 
-def write_evidence(prop, tier, seed, spec, results, wall, status, confirmed, known, vac):
+def write_evidence(prop, tier, seed, spec, results, wall, status, confirmed, known, vac, xcheck=None):
     paths = sum(d["paths"] for d in results)
     decisions = sum(d["stats"].get("decisions", 0) for d in results)
     validated = sum(d["validated"] for d in results)
@@ -74,6 +74,7 @@ def write_evidence(prop, tier, seed, spec, results, wall, status, confirmed, kno
             "covers": covers,
             "paths_not_evaluable": noteval,
             "vacuity": vac,
+            "cross_checks": xcheck or {"note": "second engine / second solver run in the thorough tier only"},
             "jobs": len(results),
             "status": status,
             "known_findings_hit": sorted({f["id"] for f, _ in known}),
